@@ -13,6 +13,7 @@ from hypothesis import strategies as st
 import common
 import farm
 import farmcheck
+import zoo
 import expmodel
 import p21gen
 import p21render
@@ -219,7 +220,7 @@ def main(tier, seed):
                          make_strategy=lambda lib: cases(lib["schema"], cfg, probe), case_fn=case,
                          confirm_fn=lambda lib, f, wd: bool(oracle(lib, expmodel.Schema(lib["schema"]), f["pop"], f["text"], f["x"], wd, "confirm")[1]),
                          replay_files=lambda f: {"input.p21": f["text"], "case.json": json.dumps({"pop": f["pop"], "x": f["x"]})},
-                         schema_cfg=SCHEMA_CFG,
+                         schema_cfg=SCHEMA_CFG, extra_schemas=[zoo.ZOO],
                          schema_filter=lambda s: any(e["inverse"] for e in s["entities"]))
 
 
